@@ -364,6 +364,12 @@ impl Check for C19 {
                 1 => format!("2024/01/{:02} 支払い {}", 1 + k, k),
                 _ => format!("2024/01/{:02} Payee {}", 1 + k, k),
             };
+            // now and then a one-line top-level comment (with or without text) or a declaration
+            // stands between the transactions: it is an entry like any other
+            if rng.chance(1, 4) {
+                let c = *rng.pick(&[";", "#", ";;;;;;;;", "%", "; note to self", "* starred", ";   ", "# メモ", "account Assets:Declared", "commodity CHF"]);
+                entries.push((c.to_string(), vec![], vec![]));
+            }
             let np = 1 + rng.usize(4);
             let posts: Vec<PostingSpec> = (0..np).map(|_| gen_posting(&mut rng)).collect();
             let txn_meta = if rng.chance(1, 5) { vec!["txn note".to_string()] } else { vec![] };
@@ -421,7 +427,7 @@ impl Check for C19 {
          FormatOptions::format output with the width model in this file: every posting line starts with exactly four spaces + mark + account; >= 2 spaces follow the \
          account; the last character of the first commodity-bearing number (whole expression if none) sits at display column max(52, 4 + w(mark+account) + 2 + prefix); \
          an assertion-only `=` sits at max(54 + w(' ' + commodity), 4 + w + 3); `amount = assertion` separated by single spaces; metadata lines are four spaces + `;`; \
-         exactly one blank line after every entry and none elsewhere. A sample compares `okane format` stdout byte for byte. Distinct by input text."
+         exactly one blank line after every entry and none elsewhere (entries include one-line top-level comments, some without any text, and declarations). A sample compares `okane format` stdout byte for byte. Distinct by input text."
             .to_string()
     }
     fn assumptions(&self) -> Vec<String> {
